@@ -1,7 +1,7 @@
 (* Correspondence obligations for C11: the model's outputs on the inputs the implementation ran.
    Each `*_mismatches` returns the indices of the cases on which the model and the observation differ. *)
 From Coq Require Import ZArith NArith Bool List.
-From PcoreV Require Import Model.Base Model.Json Model.Pb.
+From PcoreV Require Import Model.Base Model.Json Model.Pb Model.PbMem.
 Import ListNotations.
 Open Scope Z_scope.
 
@@ -67,6 +67,7 @@ Definition pb_check (c : pcase) : bool :=
       pb_eqb (to_pb v) d && res_eqb value_eqb (from_pb d) back && res_eqb evs_eqb (consume_list d) evs
   | PE e d evs coll =>
       res_eqb pb_eqb (pc_run e) d &&
+      res_eqb pb_eqb (pc_run_mem e) d &&      (* the same over Go slices: capacity 8, doubling (Model/PbMem.v) *)
       match d, evs with
       | Ok d', Some r => res_eqb evs_eqb (consume_list d') r
       | _, _ => true
